@@ -497,7 +497,8 @@ theorem pres_succ (P : Program) (x : String) (v : Int) (f : Nat) (ih : Pres P x 
                     exact inv_out hi _
                 · cases h
               · cases h
-              · cases h
+              · rename_i hno
+                exact (hno _ _ h).elim
     | print args =>
       simp only [execStmt] at h
       split at h
@@ -547,5 +548,170 @@ theorem pres_succ (P : Program) (x : String) (v : Int) (f : Nat) (ih : Pres P x 
 theorem pres (P : Program) (x : String) (v : Int) : ∀ f, Pres P x v f
   | 0 => pres_zero P x v
   | f + 1 => pres_succ P x v f (pres P x v f)
+
+/-! ### the substituted statements execute like the original ones -/
+
+theorem find_substCases (x : String) (r : Ex) (q : List Int → Bool) :
+    ∀ cs : List (List Int × List Stmt),
+      (substCases x r cs).find? (fun c => q c.1) = (cs.find? (fun c => q c.1)).map (fun c => (c.1, substStmts x r c.2))
+  | [] => by simp [substCases]
+  | (vs, b) :: cs => by
+      simp only [substCases, List.find?]
+      cases q vs with
+      | true => simp
+      | false => simpa using find_substCases x r q cs
+
+structure Sim (P : Program) (x : String) (v : Int) (f : Nat) : Prop where
+  stmts : ∀ ss st, Inv x v st → safeStmts x ss = true →
+      execStmts P f (substStmts x (litInt v) ss) st = execStmts P f ss st
+  stmt : ∀ s st, Inv x v st → safeStmt x s = true → execStmt P f (substStmt x (litInt v) s) st = execStmt P f s st
+  doI : ∀ w body step n cur st, Inv x v st → w ≠ x → safeStmts x body = true →
+      doIter P f w (substStmts x (litInt v) body) step n cur st = doIter P f w body step n cur st
+  whileI : ∀ c body st, Inv x v st → safeStmts x body = true →
+      whileIter P f (substE x (litInt v) c) (substStmts x (litInt v) body) st = whileIter P f c body st
+
+theorem sim_zero (P : Program) (x : String) (v : Int) : Sim P x v 0 := by
+  constructor
+  · intro ss st _ _; simp [execStmts]
+  · intro s st _ _; simp [execStmt]
+  · intro w body step n cur st _ _ _; simp [doIter]
+  · intro c body st _ _; simp [whileIter]
+
+theorem sim_succ (P : Program) (x : String) (v : Int) (f : Nat) (ih : Sim P x v f) : Sim P x v (f + 1) := by
+  have pr := pres P x v f
+  constructor
+  · -- execStmts
+    intro ss st hi hs
+    cases ss with
+    | nil => simp [substStmts]
+    | cons s rest =>
+      simp only [safeStmts, Bool.and_eq_true] at hs
+      simp only [substStmts, execStmts]
+      rw [ih.stmt s st hi hs.1]
+      cases hr : execStmt P f s st with
+      | fuel => rfl
+      | err m => rfl
+      | ok st1 sg =>
+        cases sg with
+        | normal => exact ih.stmts rest st1 (pr.stmt s st st1 _ hi hs.1 hr) hs.2
+        | exit => rfl
+        | cycle => rfl
+  · -- execStmt
+    intro s st hi hs
+    have hok := substOK_of_inv hi
+    cases s with
+    | assign lhs rhs =>
+      simp only [safeStmt] at hs
+      simp only [substStmt, execStmt]
+      rw [assign_eq hok lhs rhs hs]
+    | doLoop w lo hi' step body =>
+      simp only [safeStmt, Bool.and_eq_true] at hs
+      have hw : w ≠ x := by simpa using hs.1
+      simp only [substStmt, execStmt, evalE_subst hok]
+      generalize (evalE st [] lo).bind asInt = a
+      generalize (evalE st [] hi').bind asInt = b
+      cases step with
+      | none =>
+        simp only [substO]
+        cases a <;> cases b <;> try rfl
+        simp only
+        exact ih.doI _ _ _ _ _ _ hi hw hs.2
+      | some e =>
+        simp only [substO, evalE_subst hok]
+        generalize (evalE st [] e).bind asInt = c
+        cases a <;> cases b <;> cases c <;> try rfl
+        rename_i l hh sv
+        simp only
+        by_cases hs0 : sv = 0
+        · simp [hs0]
+        · simp only [hs0, if_false]
+          exact ih.doI _ _ _ _ _ _ hi hw hs.2
+    | «while» c body =>
+      simp only [safeStmt] at hs
+      simp only [substStmt, execStmt]
+      exact ih.whileI _ _ _ hi hs
+    | ifte c t e =>
+      simp only [safeStmt, Bool.and_eq_true] at hs
+      simp only [substStmt, execStmt, evalE_subst hok]
+      cases evalE st [] c with
+      | none => rfl
+      | some w =>
+        cases w with
+        | int i => rfl
+        | real q => rfl
+        | bool bb =>
+          cases bb with
+          | true => exact ih.stmts _ _ hi hs.1
+          | false => exact ih.stmts _ _ hi hs.2
+    | select e cases dflt =>
+      simp only [safeStmt, Bool.and_eq_true] at hs
+      simp only [substStmt, execStmt, evalE_subst hok]
+      cases (evalE st [] e).bind asInt with
+      | none => rfl
+      | some i =>
+        simp only
+        rw [find_substCases x (litInt v) (fun vs => vs.contains i) cases]
+        cases hc : cases.find? (fun c => c.1.contains i) with
+        | none => simp only [Option.map]; exact ih.stmts _ _ hi hs.2
+        | some c => simp only [Option.map]; exact ih.stmts _ _ hi (safeCases_find hs.1 hc)
+    | assoc binds body => simp [safeStmt] at hs
+    | callSub g args =>
+      simp only [safeStmt, Bool.not_eq_true'] at hs
+      simp only [substStmt]
+      rw [substEs_noMention x (litInt v) args hs]
+    | print args => rfl
+    | exit => rfl
+    | cycle => rfl
+    | nop k t => rfl
+  · -- doIter
+    intro w body step n cur st hi hw hs
+    simp only [doIter]
+    cases hwr : writeAt st w [] (.int cur) with
+    | none => rfl
+    | some st1 =>
+      have h1 := writeAt_inv hi hw hwr
+      cases n with
+      | zero => rfl
+      | succ n' =>
+        simp only
+        rw [ih.stmts body st1 h1 hs]
+        cases hb : execStmts P f body st1 with
+        | fuel => rfl
+        | err m => rfl
+        | ok st2 sg =>
+          have h2 := pr.stmts body st1 st2 sg h1 hs hb
+          cases sg with
+          | exit => rfl
+          | normal => exact ih.doI _ _ _ _ _ _ h2 hw hs
+          | cycle => exact ih.doI _ _ _ _ _ _ h2 hw hs
+  · -- whileIter
+    intro c body st hi hs
+    have hok := substOK_of_inv hi
+    simp only [whileIter, evalE_subst hok]
+    cases evalE st [] c with
+    | none => rfl
+    | some w =>
+      cases w with
+      | int i => rfl
+      | real q => rfl
+      | bool bb =>
+        cases bb with
+        | false => rfl
+        | true =>
+          simp only
+          rw [ih.stmts body st hi hs]
+          cases hb : execStmts P f body st with
+          | fuel => rfl
+          | err m => rfl
+          | ok st2 sg =>
+            have h2 := pr.stmts body st st2 sg hi hs hb
+            cases sg with
+            | exit => rfl
+            | normal => exact ih.whileI _ _ _ h2 hs
+            | cycle => exact ih.whileI _ _ _ h2 hs
+
+theorem sim (P : Program) (x : String) (v : Int) : ∀ f, Sim P x v f
+  | 0 => sim_zero P x v
+  | f + 1 => sim_succ P x v f (sim P x v f)
 
 end LokiModel.C39
